@@ -284,7 +284,10 @@ def vm_cond(ctx):
             if encl:
                 top = max(encl, key=lambda l: len(l.blocks))
                 oks = [b for b, _ in ret_sites_by(it, lambda v: is_variant(v, 'result::Result', 'Ok'))]
-                rc0 = Reach(facts, vb, Evaluator(facts))
+                # (with no entries on one side there is no pair to compare: `if self.entries.is_empty() || other.entries.is_empty()
+                # { return Ok(()) }` skips nothing; the clause is asked in the world where both sides hold entries)
+                rc0 = Reach(facts, vb, Evaluator(facts, bool_atom=emptiness_atom({'e1': (1, (r['entries'],)), 'e2': (2, (r['entries'],))}),
+                                                 assumption={'e1': False, 'e2': False}))
                 rets = [i_ for i_, blk_ in enumerate(vb.blocks) if not blk_['cleanup'] and blk_['term']['k'] == 'return']
                 # an `Ok` assigned before the scan is a shortcut only if the function can return from there without scanning
                 byp = [b for b in oks if b in rc0._reach(0, {top.head}) and any(r_ in rc0._reach(b, {top.head}) for r_ in rets)]
